@@ -195,6 +195,19 @@ def gen_c09(rng, t, thorough):
             ops.append("read/%s/i" % reg["name"])
             react += [[] for _ in range(8)]            # silence: gives up after eight tries
             out.append(ACase("c09-errors", ops, react, tags, cfg=rng.below(4)))
+            # a value that cannot be decoded (not a member of the enumeration) arrives on the k-th try, silence before and
+            # after it: the read ends with the decoding error after k frames -- one register access, at most eight frames
+            if reg["kind"] == 3:
+                for k in (1, 2, 5, 8):
+                    keys = set(t["enums"].get(reg["factory"], [0]))
+                    non = [x for x in range(256) if x not in keys]
+                    if not non:
+                        continue
+                    v = le(rng.choice(non), 1)
+                    ops, react = ["connect"], connect_react(dev)
+                    ops.append("read/%s/b/%s" % (reg["name"], bytes(v).hex()))
+                    react += [[] for _ in range(k - 1)] + [[ev_data(get_resp(reg["addr"], v))]] + [[] for _ in range(9)]
+                    out.append(ACase("c09-undecodable-late", ops, react, {"dev": dev}, cfg=rng.below(4)))
         # the list/stream API, several runs on one RegisterApi with the device's values changing in between
         # (static registers too) and single reads interleaved: every value is the one sent in that run
         regs = t["lists"][str(idx)]
@@ -368,6 +381,21 @@ def gen_c10(rng, t, thorough):
                     react.append([ev_data(get_resp(r["addr"], good_value(rng, r, t)))])
                 out.append(ACase("c10-second-run", ["connect", "stream/15/all/-/%s" % variant, "stream/15/all/-/%s" % variant], react,
                                  {"dev": dev, "expect_n1": len(full), "expect_end1": "ok", "expect_n2": k, "expect_end2": "ERR"}, cfg=rng.below(4)))
+        # ... a run that ends with the context done (cancelled before the run, or inside callback k), then a run with a live
+        # context on the same object: the second run reads and reports everything
+        for k in ([0, 1, 3, len(full) - 1] if thorough else [0, 2]):
+            for variant in ("s", "m"):
+                if k > 0 and variant == "m":
+                    continue        # the map variant is cancelled only before the run
+                react = connect_react(dev)
+                for r in full[:k]:
+                    react.append([ev_data(get_resp(r["addr"], good_value(rng, r, t)))])
+                for r in full:
+                    react.append([ev_data(get_resp(r["addr"], good_value(rng, r, t)))])
+                first = "stream/15/all/%s/%s" % ("b" if k == 0 else "c%d" % k, variant)
+                out.append(ACase("c10-after-cancel", ["connect", first, "stream/15/all/-/%s" % variant, "stream/15/all/-/s"],
+                                 react + [[ev_data(get_resp(r["addr"], good_value(rng, r, t)))] for r in full],
+                                 {"dev": dev, "expect_n1": k, "expect_end1": "Ectxdone", "expect_n2": len(full), "expect_end2": "ok"}, cfg=rng.below(4)))
         mk("c10-empty", 15, [], "-", "s")
         mk("c10-empty", 15, [], "b", "s")
     return out
